@@ -75,6 +75,13 @@ def build_pool(r, tier):
         pool.append({"cls": rec, "op": "gen_format", "args": ["{id}_{ts}"]})
         pool.append({"cls": rec, "op": "parse", "args": ["42_20240131", "{id:%n}_{ts:%Y%m%d}", None]})
         pool.append({"cls": rec, "op": "parse", "args": ["data_2024", "{id:%n}_{ts:%n}", None]})
+    # the same text of one field in contexts where it means something else (a memo keyed by the text alone would be wrong)
+    for y in ("2023", "2024", "1900", "2000"):
+        for j in ("060", "061", "366", "365", "001"):
+            pool.append({"cls": B("datetime"), "op": "parse", "args": [f"{y} {j}", "%Y %j", False]})
+        pool.append({"cls": B("datetime"), "op": "parse", "args": [f"{y} 09 1", "%Y %U %w", False]})
+        pool.append({"cls": B("datetime"), "op": "parse", "args": [f"{y} 09 1", "%Y %W %w", False]})
+        pool.append({"cls": B("datetime"), "op": "parse_format", "args": [f"{y}-02-28", "%Y-%m-%d", "%j %U %W %a"]})
     pool.append({"cls": B("serial"), "op": "arith", "args": ["12", "%n", 30]})
     pool.append({"cls": B("serial"), "op": "arith", "args": ["12", "%n", -30]})
     for k, s in (("ver", "1.2.3"), ("versemver", "1.2.3-rc.1+b"), ("verpkg", "1!1.2.3rc1"), ("verpkg", "not a version"), ("ver", "1.2")):
